@@ -389,6 +389,36 @@ fn step_poll_recv_batch_pending(cap: usize, nr: usize, already: bool) {
   kani::cover!(true, "END");
 }
 
+/// forward_recv_wake / forward_send_wake (called by the Drop of a future that was woken but never polled again):
+/// if the operation the wake was about is still possible (buffer non-empty / not full) the FIRST waiter of that side
+/// that is still WAITING is unlinked, marked SUCCESS and woken exactly once; otherwise nothing changes.  The buffer and
+/// the side counts are never touched.
+fn step_forward(cap: usize, recv_side: bool) {
+  let sh = MpmcShared::<u8>::new(cap);
+  let m = WMem::new();
+  let (nr, ns) = if recv_side { (2, 0) } else { (0, 2) };
+  let s = any_state(&sh, &m, nr, ns);
+  if recv_side { sh.forward_recv_wake(); } else { sh.forward_send_wake(); }
+  assert!(sh.k_wf() && sh.k_counts() == (s.sc, s.rc));
+  let (v, n2) = sh.k_view();
+  assert!(n2 == s.n && same_prefix(&s.items, &v, s.n));
+  let possible = if recv_side { s.n > 0 } else { s.n < cap };
+  let flags = if recv_side { &s.r_wait } else { &s.s_wait };
+  let fw = if possible { first_waiting(flags, 2) } else { NW };
+  let mut i = 0;
+  while i < NW {
+    let st = if recv_side { ld(&m.rs[i]) } else { ld(&m.ss[i]) };
+    let wk = if recv_side { wakes(i) } else { wakes(2 + i) };
+    if i == fw { assert!(st == STATE_SUCCESS_SPACE && wk == 1); }
+    else { assert!(st == if flags[i] { STATE_WAITING } else { STATE_CANCELLED } && wk == 0); }
+    i += 1;
+  }
+  let left = if recv_side { sh.k_nr() } else { sh.k_ns() };
+  assert!(left == if fw < NW { 1 } else { 2 });
+  let c_fw = fw == 1; kani::cover!(c_fw);
+  kani::cover!(true, "END");
+}
+
 /// Teardown: every buffered value is dropped exactly once when the shared core is dropped.
 fn step_drop_once(cap: usize) {
   let sh = MpmcShared::<D>::new(cap);
@@ -730,3 +760,39 @@ fn ob_mpmc_core_poll_recv_batch_pending_cap1r1re() { step_poll_recv_batch_pendin
 #[kani::stub(crate::sync::mutex::HybridMutex::lock_slow, stub_hm_lock_slow)]
 #[kani::unwind(8)]
 fn ob_mpmc_core_poll_recv_batch_pending_cap1r1() { step_poll_recv_batch_pending(1, 1, false); }
+
+// @obligation id=mpmc.core.forward_recv.cap1 props=C06 kind=step tier=quick bound="logical capacity 1, 2 async receiver waiters (each WAITING or CANCELLED); 0..=capacity buffered values, head any usize; counts any <=2"
+#[kani::proof]
+#[kani::stub(std::thread::current::current, crate::verif_k_stubs::stub_thread_current)]
+#[kani::stub(parking_lot::RawMutex::lock_slow, crate::verif_k_stubs::stub_lock_slow)]
+#[kani::stub(parking_lot::RawMutex::unlock_slow, crate::verif_k_stubs::stub_unlock_slow)]
+#[kani::stub(crate::sync::mutex::HybridMutex::lock_slow, stub_hm_lock_slow)]
+#[kani::unwind(8)]
+fn ob_mpmc_core_forward_recv_cap1() { step_forward(1, true); }
+
+// @obligation id=mpmc.core.forward_send.cap1 props=C06 kind=step tier=quick bound="logical capacity 1, 2 async sender waiters (each WAITING or CANCELLED); 0..=capacity buffered values, head any usize; counts any <=2"
+#[kani::proof]
+#[kani::stub(std::thread::current::current, crate::verif_k_stubs::stub_thread_current)]
+#[kani::stub(parking_lot::RawMutex::lock_slow, crate::verif_k_stubs::stub_lock_slow)]
+#[kani::stub(parking_lot::RawMutex::unlock_slow, crate::verif_k_stubs::stub_unlock_slow)]
+#[kani::stub(crate::sync::mutex::HybridMutex::lock_slow, stub_hm_lock_slow)]
+#[kani::unwind(8)]
+fn ob_mpmc_core_forward_send_cap1() { step_forward(1, false); }
+
+// @obligation id=mpmc.core.forward_recv.cap3 props=C06 kind=step tier=quick bound="logical capacity 3, 2 async receiver waiters (each WAITING or CANCELLED); 0..=capacity buffered values, head any usize; counts any <=2"
+#[kani::proof]
+#[kani::stub(std::thread::current::current, crate::verif_k_stubs::stub_thread_current)]
+#[kani::stub(parking_lot::RawMutex::lock_slow, crate::verif_k_stubs::stub_lock_slow)]
+#[kani::stub(parking_lot::RawMutex::unlock_slow, crate::verif_k_stubs::stub_unlock_slow)]
+#[kani::stub(crate::sync::mutex::HybridMutex::lock_slow, stub_hm_lock_slow)]
+#[kani::unwind(8)]
+fn ob_mpmc_core_forward_recv_cap3() { step_forward(3, true); }
+
+// @obligation id=mpmc.core.forward_send.cap3 props=C06 kind=step tier=quick bound="logical capacity 3, 2 async sender waiters (each WAITING or CANCELLED); 0..=capacity buffered values, head any usize; counts any <=2"
+#[kani::proof]
+#[kani::stub(std::thread::current::current, crate::verif_k_stubs::stub_thread_current)]
+#[kani::stub(parking_lot::RawMutex::lock_slow, crate::verif_k_stubs::stub_lock_slow)]
+#[kani::stub(parking_lot::RawMutex::unlock_slow, crate::verif_k_stubs::stub_unlock_slow)]
+#[kani::stub(crate::sync::mutex::HybridMutex::lock_slow, stub_hm_lock_slow)]
+#[kani::unwind(8)]
+fn ob_mpmc_core_forward_send_cap3() { step_forward(3, false); }
